@@ -501,9 +501,21 @@ pub fn run(out: &mut Out, tier: &str, seed: u64, prop: &str) {
                 if named != warns { out.oracle_fail("C17", &format!("Requirement::parse_reporter passes other warnings to the supplied reporter ({named:?}) than MarkerTree::parse_reporter reports for the marker ({warns:?})"), input.clone()); }
                 #[cfg(feature = "ext")]
                 {
-                    let unnamed = codes(&mut |rep| { let mut r = |k: MarkerWarningKind, m: String| rep(k, m); let _ = std::panic::catch_unwind(std::panic::AssertUnwindSafe(|| pep508_rs::UnnamedRequirement::<pep508_rs::VerbatimUrl>::parse(&format!("https://example.org/p-1.0-py3-none-any.whl ; {with}"), "/work", &mut r))); });
-                    out.evaluations += 1;
-                    if unnamed != warns { out.oracle_fail("C17", &format!("UnnamedRequirement::parse passes other warnings to the supplied reporter ({unnamed:?}) than MarkerTree::parse_reporter reports for the marker ({warns:?})"), input.clone()); }
+                    // … behind URLs of several shapes (also ones that end in `#` / `;`, or carry extras): accepted, the marker is the marker
+                    // with the comparisons removed, the same warnings
+                    for url in ["https://example.org/p-1.0-py3-none-any.whl", "https://example.org/p.whl#", "/srv/p-1.0.tar.gz;", "/srv/x.whl#[tests]", "./rel/p.whl[a,b]"] {
+                        let mut parsed: Option<Result<String, String>> = None;
+                        let unnamed = codes(&mut |rep| { let mut r = |k: MarkerWarningKind, m: String| rep(k, m);
+                            parsed = std::panic::catch_unwind(std::panic::AssertUnwindSafe(|| pep508_rs::UnnamedRequirement::<pep508_rs::VerbatimUrl>::parse(&format!("{url} ; {with}"), "/work", &mut r))).ok().map(|r| r.map(|u| dump(&u.marker)).map_err(|e| e.message.to_string())); });
+                        out.evaluations += 1;
+                        let uinput = serde_json::json!({"text": format!("{url} ; {with}"), "feature": "non-pep508-extensions"});
+                        match parsed {
+                            Some(Ok(m)) => if m != want { out.oracle_fail("C17", "UnnamedRequirement::parse: the marker is not the marker with exactly the uninterpretable comparisons removed", uinput.clone()); },
+                            Some(Err(e)) => out.oracle_fail("C17", &format!("UnnamedRequirement::parse rejects a requirement whose marker contains an uninterpretable comparison: {e}"), uinput.clone()),
+                            None => out.oracle_fail("C06", "UnnamedRequirement::parse panicked", uinput.clone()),
+                        }
+                        if unnamed != warns { out.oracle_fail("C17", &format!("UnnamedRequirement::parse passes other warnings to the supplied reporter ({unnamed:?}) than MarkerTree::parse_reporter reports for the marker ({warns:?})"), uinput.clone()); }
+                    }
                     out.stat("c17.unnamed_reporter");
                 }
             }
@@ -718,6 +730,16 @@ pub fn run(out: &mut Out, tier: &str, seed: u64, prop: &str) {
                     let r2 = built.evaluate_reporter(&env, &xs, &mut sink);
                     let r3 = built.evaluate_collect_warnings(&env, &xs).0;
                     let r4 = built.evaluate_optional_environment(Some(&env), &xs);
+                    // … and through a requirement that carries the marker: one without extras of its own, one requested WITH extras (among
+                    // them the ones the marker mentions) — the extras a dependency is requested with are not the active extras
+                    let own: Vec<pep508_rs::ExtraName> = ["dev", "test", "a", "b", "py39", "foo-bar"].iter().map(|n| pep508_rs::ExtraName::from_str(n).unwrap()).collect();
+                    let mk = |extras: Vec<pep508_rs::ExtraName>| pep508_rs::Requirement::<pep508_rs::VerbatimUrl> { name: pep508_rs::PackageName::from_str("pkg").unwrap(), extras, version_or_url: None, marker: built.clone(), origin: None };
+                    let (q0, q1) = (mk(vec![]), mk(own));
+                    let r5 = [q0.evaluate_markers(&env, &xs), q1.evaluate_markers(&env, &xs), q1.evaluate_markers(&env, &[]) == built.evaluate(&env, &[]), q1.evaluate_markers_and_report(&env, &xs).0];
+                    if r5[0] != want || r5[1] != want || !r5[2] || r5[3] != want {
+                        out.oracle_fail("C01", "Requirement::evaluate_markers (on a requirement with / without extras of its own) differs from the PEP 508 reading of its marker", serde_json::json!({"text": text, "env": e.line(), "answers": format!("{r5:?}"), "want": want}));
+                        break;
+                    }
                     if r1 != want || r2 != want || r3 != want || r4 != want {
                         out.oracle_fail("C01", &format!("evaluation gives {r1}/{r2}/{r3}/{r4} (evaluate / _reporter / _collect_warnings / _optional_environment), the PEP 508 reading of the text gives {want}"), serde_json::json!({"text": text, "ast": t.line(), "env": e.line()}));
                         break;
